@@ -249,7 +249,7 @@ func init() {
 	Register(&Engine{
 		ID:       "C08",
 		Anchors:  []string{"router.go:headResponse.Write", "router.go:headResponse.WriteHeader", "tree.go:Remove", "method.go:addMethods"},
-		Cases:    func(t string) int { return map[string]int{"quick": 1600, "thorough": 60000}[t] },
+		Cases:    func(t string) int { return map[string]int{"quick": 5000, "thorough": 400000}[t] },
 		Run:      runC08,
 		Directed: c08Directed,
 		Rule: "odd cases: 60 generated handler write programs (0-8 steps over set/add/del header, WriteHeader(code), Write(n), n in 0..4096) run under GET and HEAD on the same handler object through a wire-faithful recorder, plus reserved-method registrations; even cases: a Handle/Remove/Clean history with HEAD/GET/OPTIONS probes on every pool pattern after each step; " +
